@@ -78,6 +78,10 @@ pub struct E2eResult {
     pub announced_port: Option<u16>,
     #[serde(default)]
     pub announced_port_answers: Option<bool>,
+    /// C19 mode: after the tracker has recovered and every listed peer was contacted, did each of them receive a
+    /// message after the handshakes (the session really works with them) within 5 s?
+    #[serde(default)]
+    pub serves_after_recovery: Option<bool>,
     pub wall_ms: u64,
     pub error: Option<String>,
 }
@@ -140,6 +144,7 @@ struct Shared {
     contacted: Vec<AtomicBool>,
     handshake_ok: Vec<AtomicBool>,
     announced_port: AtomicU64,
+    engaged: Vec<AtomicBool>,
 }
 
 fn ms(t0: Instant) -> u64 {
@@ -216,7 +221,10 @@ async fn fake_tracker(case: E2eCase, t: Torrent, sh: Arc<Shared>) {
                 let _ = s.shutdown().await;
             }
             None => {
-                let peers: Vec<RVal> = (0..case.peers.len())
+                // every third case: the tracker lists each peer twice (trackers do repeat entries)
+                let listed: Vec<usize> = if case.seed % 3 == 0 { (0..case.peers.len()).chain(0..case.peers.len()).collect() } else { (0..case.peers.len()).collect() };
+                let peers: Vec<RVal> = listed
+                    .into_iter()
                     .map(|i| {
                         RVal::Dict(vec![
                             (b"ip".to_vec(), RVal::s("127.0.0.1")),
@@ -315,6 +323,7 @@ async fn fake_peer(i: usize, spec: E2ePeer, has: Vec<bool>, t: Torrent, own_id: 
                     }
                 }
             };
+            sh.engaged[i].store(true, Ordering::SeqCst);
             if let RFrame::Request(pi, b, l) = f {
                 if unchoked && (pi as usize) < has.len() && has[pi as usize] {
                     let piece = t.piece(pi as usize);
@@ -429,6 +438,7 @@ pub fn child_main(case_path: &str, out_path: &str) -> i32 {
         announced_port: AtomicU64::new(0),
         contacted: (0..case.peers.len()).map(|_| AtomicBool::new(false)).collect(),
         handshake_ok: (0..case.peers.len()).map(|_| AtomicBool::new(false)).collect(),
+        engaged: (0..case.peers.len()).map(|_| AtomicBool::new(false)).collect(),
     });
     let rt = tokio::runtime::Builder::new_current_thread().enable_all().build().expect("runtime");
     let started = Instant::now();
@@ -443,6 +453,8 @@ pub fn child_main(case_path: &str, out_path: &str) -> i32 {
     let _squatter = if case.listen_check == 2 { std::net::TcpListener::bind("0.0.0.0:6881").ok() } else { None };
     let listen_answer: Arc<std::sync::Mutex<Option<bool>>> = Arc::new(std::sync::Mutex::new(None));
     let listen_answer2 = listen_answer.clone();
+    let after_recovery: Arc<std::sync::Mutex<Option<bool>>> = Arc::new(std::sync::Mutex::new(None));
+    let after_recovery2 = after_recovery.clone();
     let ih = t.info_hash();
     let outcome = std::panic::catch_unwind(std::panic::AssertUnwindSafe(|| {
         rt.block_on(async {
@@ -510,6 +522,14 @@ pub fn child_main(case_path: &str, out_path: &str) -> i32 {
                         if good && all_contacted {
                             // let handshakes arrive
                             tokio::time::sleep(Duration::from_millis(300)).await;
+                            // and does the session go on with them? every listed peer must receive something after the
+                            // handshakes (bitfield, interested, a request) within 5 s
+                            let st = Instant::now();
+                            while st.elapsed() < Duration::from_secs(5) && !sh.engaged.iter().all(|c| c.load(Ordering::SeqCst)) {
+                                tokio::time::sleep(Duration::from_millis(50)).await;
+                            }
+                            let served = sh.engaged.iter().all(|c| c.load(Ordering::SeqCst));
+                            *after_recovery2.lock().unwrap() = Some(served);
                             return (true, false);
                         }
                     }
@@ -533,6 +553,7 @@ pub fn child_main(case_path: &str, out_path: &str) -> i32 {
     let ap = sh.announced_port.load(Ordering::SeqCst);
     res.announced_port = if ap > 0 { Some((ap - 1) as u16) } else { None };
     res.announced_port_answers = *listen_answer.lock().unwrap();
+    res.serves_after_recovery = *after_recovery.lock().unwrap();
     if done {
         res.completed_ms = Some(res.wall_ms);
     }
@@ -724,7 +745,7 @@ pub fn fault_strategy(tier: Tier) -> BoxedStrategy<E2eCase> {
         Tier::Quick => (1usize..=4).boxed(),
         Tier::Thorough => prop_oneof![4 => (1usize..=6).boxed(), 1 => prop::sample::select(vec![63usize, 64, 65, 66, 70]).boxed()].boxed(),
     };
-    (n, any::<u64>(), 1u8..=3)
+    (n, any::<u64>(), 1u8..=6)
         .prop_flat_map(|(n, seed, probes)| (vec(outcome(), n..=n), vec(peer_spec(), 1..=3), Just(seed), prop_oneof![3 => Just(0u16), 1 => Just(1200u16)], Just(probes)))
         .prop_map(|(tracker, peers, seed, delay, probes)| E2eCase {
             geo: Geometry::single(64, 200, seed),
@@ -748,6 +769,7 @@ pub fn check_faults(c: &E2eCase) -> Outcome {
     o.class_if(c.tracker.len() >= 60, "more-failures-than-channel-capacity");
     o.class_if(c.tracker_start_delay_ms > 0, "connection-refused-first");
     o.class_if(c.probes >= 2, "peer-leaves-while-tracker-fails");
+    o.class_if(c.probes >= 4, ">=3-peers-leave-while-tracker-fails");
     let watchdog = Duration::from_secs(90 + 3 * c.tracker.len() as u64);
     match run_child(c, watchdog) {
         Err(_) => {
@@ -775,6 +797,12 @@ pub fn check_faults(c: &E2eCase) -> Outcome {
                         ),
                     );
                 }
+            }
+            if res.serves_after_recovery == Some(false) {
+                o.fail(
+                    "listed-peers-contacted-but-session-does-not-go-on",
+                    format!("the tracker recovered after {} failed announces and every listed peer got the client's handshake, but at least one of them received nothing after answering it within 5 s ({} probes had come and gone during the outage)", res.tracker_failures_served, c.probes.saturating_sub(1)),
+                );
             }
             if res.tracker_good_ms.is_some() {
                 for (i, cted) in res.peers_contacted.iter().enumerate() {
